@@ -37,10 +37,11 @@ type Options struct {
 
 type Machine struct {
 	refusedSeen int
-	W     *world.World
-	T     *rapid.T
-	Opt   Options
-	Trace []string
+	forceProbe  bool
+	W           *world.World
+	T           *rapid.T
+	Opt         Options
+	Trace       []string
 	// Counters for evidence classification
 	Count map[string]int
 	ops   []string
@@ -49,7 +50,7 @@ type Machine struct {
 var DefaultWeights = map[string]int{
 	"fund": 6, "mintquote": 2, "pay": 2, "deliver": 1, "pollmint": 1, "mint": 3,
 	"swap": 6, "swap_adv": 3, "meltquote": 3, "melt": 4, "melt_adv": 1, "resolve": 2, "pollmelt": 2,
-	"checkstate": 2, "rotate": 1, "restart": 1, "replay": 0,
+	"checkstate": 2, "rotate": 1, "restart": 1, "replay": 0, "mint_fault": 1, "swap_fault": 1,
 }
 
 // GenConfig draws a mint configuration.
@@ -122,9 +123,13 @@ func (m *Machine) probeRefused(t *rapid.T, op string) {
 	w := m.W
 	from := m.refusedSeen
 	m.refusedSeen = len(w.M.Refused)
-	if from >= len(w.M.Refused) || rapid.IntRange(0, 2).Draw(t, "probe_refused") != 0 {
+	if from >= len(w.M.Refused) {
 		return
 	}
+	if !m.forceProbe && rapid.IntRange(0, 2).Draw(t, "probe_refused") != 0 {
+		return
+	}
+	m.forceProbe = false
 	var asked []world.Out
 	var msgs cashu.BlindedMessages
 	seen := map[string]bool{}
@@ -140,6 +145,7 @@ func (m *Machine) probeRefused(t *rapid.T, op string) {
 		return
 	}
 	outs, sigs, err := w.Restore(msgs)
+	issuedFor := map[int]bool{}
 	m.Count["restore_probe_after_refusal"]++
 	m.logf("restore of the %d outputs of the refused %s: %d signatures err=%v", len(msgs), op, len(sigs), err)
 	for i := 0; i < len(outs) && i < len(sigs); i++ {
@@ -148,6 +154,15 @@ func (m *Machine) probeRefused(t *rapid.T, op string) {
 				w.Flag("C02", "refused_request_left_restorable_signature", "restore returns a signature of %d for an output of the refused %s", sigs[i].Amount, op)
 				w.Flag("C15", "restore_returns_signature_for_refused_output", "restore returns a signature of %d for an output of the refused %s", sigs[i].Amount, op)
 				w.RecordSignatures("restore_refused", []world.Out{o}, cashu.BlindedSignatures{sigs[i]})
+				// signatures for the outputs of a refused mint request are an issuance on that quote
+				if qi, ok := w.M.RefusedQuote[o.Msg.B_]; ok && qi < len(w.M.MintQuotes) && !issuedFor[qi] {
+					issuedFor[qi] = true
+					q := w.M.MintQuotes[qi]
+					q.Issuances++
+					if q.Issuances > q.Payments() {
+						w.Flag("C03", "issued_more_than_paid", "quote %d: the outputs of a refused mint request are restorable: %d issuances for %d payments", q.Idx, q.Issuances, q.Payments())
+					}
+				}
 			}
 		}
 	}
@@ -232,6 +247,10 @@ func (m *Machine) exec(t *rapid.T, op string) bool {
 		return m.opRestore(t)
 	case "checkstate_adv":
 		return m.opCheckStateAdv(t)
+	case "mint_fault":
+		return m.opMintFault(t)
+	case "swap_fault":
+		return m.opSwapFault(t)
 	case "overlap_quotes":
 		return m.opOverlapQuotes(t)
 	case "mintquote_boundary":
@@ -419,11 +438,17 @@ func (m *Machine) opPollMint(t *rapid.T) bool {
 
 func (m *Machine) opMint(t *rapid.T) bool {
 	w := m.W
-	q := m.pickMintQuote(t, func(*world.MMintQuote) bool { return true })
+	// half of the time aim at a quote that is paid and not yet issued (if there is one): that is where a request can
+	// succeed, and where faults and retries matter
+	openOnly := rapid.Bool().Draw(t, "mint_prefers_open_quote")
+	q := m.pickMintQuote(t, func(q *world.MMintQuote) bool { return !openOnly || q.Payments() > q.Issuances })
+	if q == nil {
+		q = m.pickMintQuote(t, func(*world.MMintQuote) bool { return true })
+	}
 	if q == nil {
 		return false
 	}
-	variant := rapid.SampledFrom([]string{"exact", "exact", "less", "over1", "dup_output", "unknown_keyset", "bad_amount", "overflow_wrap"}).Draw(t, "mint_variant")
+	variant := rapid.SampledFrom([]string{"exact", "exact", "exact", "less", "over1", "dup_output", "unknown_keyset", "bad_amount", "overflow_wrap"}).Draw(t, "mint_variant")
 	amounts := world.Split(q.Amount)
 	keyset := w.ActiveID
 	switch variant {
@@ -458,11 +483,61 @@ func (m *Machine) opMint(t *rapid.T) bool {
 			sig = world.SignNut20(q.LockPriv, q.ID, world.Msgs(outs))
 		}
 	}
+	fault := ""
 	_, err := w.MintTokens(q, outs, sig)
-	m.logf("mint quote %d (amount %d, payments %d, issuances %d) variant=%s sig=%v: err=%v", q.Idx, q.Amount, q.Payments(), q.Issuances, variant, sig != "", err)
+	m.logf("mint quote %d (amount %d, payments %d, issuances %d) variant=%s sig=%v%s: err=%v", q.Idx, q.Amount, q.Payments(), q.Issuances, variant, sig != "", fault, err)
 	if q.Issuances > 0 && err != nil {
 		m.Count["mint_after_issuance"]++
 	}
+	return true
+}
+
+// opMintFault: a fresh quote is paid, then the mint request meets a failing storage: its k-th storage call (and, for
+// "from", every later one) returns an error. Adversarial follow-up: fetch whatever the failed request left behind
+// (restore of its outputs), then ask again with fresh outputs - all of that together must not be worth more than
+// the one payment.
+func (m *Machine) opMintFault(t *rapid.T) bool {
+	w := m.W
+	if w.DB.Hook != nil || len(w.M.Order) > m.Opt.MaxProofs {
+		return false
+	}
+	amount := rapid.Uint64Range(1, 64).Draw(t, "mf_amount")
+	q, err := w.RequestMintQuote(amount, nil)
+	if err != nil {
+		return false
+	}
+	w.PayInvoice(q)
+	if rapid.Bool().Draw(t, "mf_polled_first") {
+		w.PollMintQuote(q)
+	}
+	k := rapid.IntRange(1, 6).Draw(t, "mf_call")
+	from := rapid.Bool().Draw(t, "mf_from")
+	n := 0
+	self := dbproxy.Gid()
+	w.DB.Hook = func(c *dbproxy.Call) error {
+		if c.Gid != self {
+			return nil
+		}
+		n++
+		if n == k || (from && n > k) {
+			return fmt.Errorf("injected storage fault: disk I/O error")
+		}
+		return nil
+	}
+	outs := w.MakeOutputs(world.Split(amount), w.ActiveID)
+	_, err = w.MintTokens(q, outs, "")
+	w.DB.Hook = nil
+	m.Count["mint_with_storage_fault"]++
+	m.logf("mint quote %d (amount %d) with a storage fault at call %d (from=%v): err=%v", q.Idx, amount, k, from, err)
+	if err == nil {
+		return true
+	}
+	m.Count["mint_failed_on_storage_fault"]++
+	m.forceProbe = true
+	m.probeRefused(t, "mint")
+	outs2 := w.MakeOutputs(world.Split(amount), w.ActiveID)
+	_, err2 := w.MintTokens(q, outs2, "")
+	m.logf("  mint again with fresh outputs (payments %d, issuances %d): err=%v", q.Payments(), q.Issuances, err2)
 	return true
 }
 
@@ -485,6 +560,57 @@ func (m *Machine) honestOutputs(total uint64) []world.Out {
 		}
 	}
 	return outs
+}
+
+// opSwapFault: an honest swap meets a failing storage at its k-th storage call. Follow-up: the model re-reads what
+// became of the inputs, the outputs of the failed request are asked back through restore (a signature handed out there
+// is value, booked as issued), and the swap is tried again with fresh outputs if the inputs are still unspent.
+func (m *Machine) opSwapFault(t *rapid.T) bool {
+	w := m.W
+	sp := m.spendable()
+	if len(sp) == 0 || w.DB.Hook != nil {
+		return false
+	}
+	ins := pickProofs(t, sp, 3, "sf_in")
+	inputs := proofsOf(ins)
+	total, fee := sumOf(ins), w.FeeFor(inputs)
+	if total <= fee {
+		return false
+	}
+	k := rapid.IntRange(1, 5).Draw(t, "sf_call")
+	from := rapid.Bool().Draw(t, "sf_from")
+	n := 0
+	self := dbproxy.Gid()
+	w.DB.Hook = func(c *dbproxy.Call) error {
+		if c.Gid != self {
+			return nil
+		}
+		n++
+		if n == k || (from && n > k) {
+			return fmt.Errorf("injected storage fault: disk I/O error")
+		}
+		return nil
+	}
+	outs := w.MakeOutputs(world.Split(total-fee), w.ActiveID)
+	_, err := w.Swap(inputs, outs)
+	w.DB.Hook = nil
+	m.Count["swap_with_storage_fault"]++
+	m.logf("swap %d inputs (%d sat) with a storage fault at call %d (from=%v): err=%v", len(inputs), total, k, from, err)
+	if err == nil {
+		return true
+	}
+	w.ResyncProofStates(inputs, nil)
+	m.forceProbe = true
+	m.probeRefused(t, "swap")
+	for _, in := range inputs {
+		if mp := w.M.Proofs[in.Secret]; mp == nil || mp.State != world.Unspent {
+			m.logf("  inputs did not stay unspent: no retry")
+			return true
+		}
+	}
+	_, err2 := w.Swap(inputs, w.MakeOutputs(world.Split(total-fee), w.ActiveID))
+	m.logf("  swap again with fresh outputs: err=%v", err2)
+	return true
 }
 
 func (m *Machine) opSwap(t *rapid.T, adversarial bool) bool {
